@@ -496,6 +496,41 @@ def install_plugin_shims():
     RC.open = fake_open
 
 
+class StubMark:
+    def __init__(self, name, args=(), kwargs=None):
+        self.name = name
+        self.args = tuple(args)
+        self.kwargs = dict(kwargs or {})
+
+
+class StubNode:
+    """what a pytest Function node offers for marks: own marks vs. marks inherited from class / module (pytestmark)"""
+
+    def __init__(self, name, own, inherited):
+        self.name = name
+        self.own_markers = list(own)
+        self._inherited = list(inherited)
+        self.keywords = {name: True}
+        for m in list(own) + list(inherited):
+            self.keywords[m.name] = m
+
+    def iter_markers(self, name=None):
+        for m in self.own_markers + self._inherited:
+            if name is None or m.name == name:
+                yield m
+
+    def get_closest_marker(self, name, default=None):
+        for m in self.iter_markers(name):
+            return m
+        return default
+
+
+class StubRequest:
+    def __init__(self, node):
+        self.node = node
+        self.keywords = node.keywords
+
+
 class PluginResult:
     def __init__(self):
         self.usage_error = None
@@ -660,8 +695,15 @@ def plugin_session(files, *, cli=None, env_flags=None, tty=False, ci_var=None, p
                 for k, v in list(g.items()):
                     if not _is_test(k, v):
                         continue
-                    marks = {"xfail": types.SimpleNamespace(args=(), kwargs={})} if k in xfail else {}
-                    req = types.SimpleNamespace(keywords=marks)
+                    # xfail: names of marked tests, or {name: ("own"|"inherited", args)}
+                    own, inh = [], []
+                    if isinstance(xfail, dict):
+                        if k in xfail:
+                            level, margs = xfail[k]
+                            (own if level == "own" else inh).append(StubMark("xfail", margs))
+                    elif k in xfail:
+                        own.append(StubMark("xfail"))
+                    req = StubRequest(StubNode(k, own, inh))
                     fx = P.snapshot_check._get_wrapped_function()(req)
                     next(fx)
                     outcome = "passed"
